@@ -522,6 +522,47 @@ theorem occ_named (K : Nat) (nodes : Nat → Node) (a : Nat) :
   simp only [occ, sum2]
   exact sumN_congr (fun n _ => occN_named (nodes n) a)
 
+/-- each named slot is claimed by a register below `N` or a thread below `T` -/
+theorem occ_pointwise (K N T : Nat) (st : State) (a : Nat) (h1 : HoldInv st) (h2 : HHoldInv st)
+    (hg : GregBelow N st.sh.greg) (ht : IdleBeyond T st) :
+    ∀ n i, n < K → i < slotCnt + 1 →
+      named (st.sh.nodes n) a i ≤
+        sumN (fun g => cnt2 (gClaims a (st.sh.greg g)) n i) N +
+        sumN (fun t => cnt2 ((st.th t).op.claims a (st.th t).loc) n i) T := by
+  intro n i _ hi
+  by_cases hi' : i < slotCnt
+  · simp only [named, hi', ↓reduceIte]
+    by_cases hv : (st.sh.nodes n).fast i = .ptr a
+    · simp only [ind, hv, ↓reduceIte]
+      rcases h1 n i a hv with ⟨g, gd, e1, e2⟩ | ⟨t, e⟩
+      · have hgN : g < N := by
+          apply Classical.byContradiction; intro hc
+          have := hg g (by omega); rw [this] at e1; cases e1
+        have c1 : 1 ≤ cnt2 (gClaims a (st.sh.greg g)) n i := by
+          rw [e1]; exact cnt2_pos (Guard.claims_of_holds e2)
+        have := @sumN_term (fun g => cnt2 (gClaims a (st.sh.greg g)) n i) N g hgN
+        omega
+      · have htT : t < T := by
+          apply Classical.byContradiction; intro hc
+          have := ht t (by omega); rw [this] at e; exact e
+        have c1 := cnt2_pos (OpSt.claims_of_holds e)
+        have := @sumN_term (fun t => cnt2 ((st.th t).op.claims a (st.th t).loc) n i) T t htT
+        omega
+    · simp only [ind, hv, ↓reduceIte]; exact Nat.zero_le _
+  · have e : i = slotCnt := by omega
+    subst e
+    simp only [named, Nat.lt_irrefl, ↓reduceIte]
+    by_cases hv : (st.sh.nodes n).hslot = .ptr a
+    · simp only [ind, hv, ↓reduceIte]
+      obtain ⟨t, e⟩ := h2 n a hv
+      have htT : t < T := by
+        apply Classical.byContradiction; intro hc
+        have := ht t (by omega); rw [this] at e; exact e
+      have c1 := cnt2_pos (OpSt.claims_of_hholds e)
+      have := @sumN_term (fun t => cnt2 ((st.th t).op.claims a (st.th t).loc) n slotCnt) T t htT
+      omega
+    · simp only [ind, hv, ↓reduceIte]; exact Nat.zero_le _
+
 /-- **the slots naming `a` are at most the claims of their holders** -/
 theorem occ_le_claims (K N T : Nat) (st : State) (a : Nat) (h1 : HoldInv st) (h2 : HHoldInv st)
     (hg : GregBelow N st.sh.greg) (ht : IdleBeyond T st) :
@@ -529,43 +570,7 @@ theorem occ_le_claims (K N T : Nat) (st : State) (a : Nat) (h1 : HoldInv st) (h2
       sumN (fun t => ((st.th t).op.claims a (st.th t).loc).length) T := by
   rw [occ_named]
   -- each named slot is claimed by a register below `N` or a thread below `T`
-  have key : ∀ n i, n < K → i < slotCnt + 1 →
-      named (st.sh.nodes n) a i ≤
-        sumN (fun g => cnt2 (gClaims a (st.sh.greg g)) n i) N +
-        sumN (fun t => cnt2 ((st.th t).op.claims a (st.th t).loc) n i) T := by
-    intro n i _ hi
-    by_cases hi' : i < slotCnt
-    · simp only [named, hi', ↓reduceIte]
-      by_cases hv : (st.sh.nodes n).fast i = .ptr a
-      · simp only [ind, hv, ↓reduceIte]
-        rcases h1 n i a hv with ⟨g, gd, e1, e2⟩ | ⟨t, e⟩
-        · have hgN : g < N := by
-            apply Classical.byContradiction; intro hc
-            have := hg g (by omega); rw [this] at e1; cases e1
-          have c1 : 1 ≤ cnt2 (gClaims a (st.sh.greg g)) n i := by
-            rw [e1]; exact cnt2_pos (Guard.claims_of_holds e2)
-          have := @sumN_term (fun g => cnt2 (gClaims a (st.sh.greg g)) n i) N g hgN
-          omega
-        · have htT : t < T := by
-            apply Classical.byContradiction; intro hc
-            have := ht t (by omega); rw [this] at e; exact e
-          have c1 := cnt2_pos (OpSt.claims_of_holds e)
-          have := @sumN_term (fun t => cnt2 ((st.th t).op.claims a (st.th t).loc) n i) T t htT
-          omega
-      · simp only [ind, hv, ↓reduceIte]; exact Nat.zero_le _
-    · have e : i = slotCnt := by omega
-      subst e
-      simp only [named, Nat.lt_irrefl, ↓reduceIte]
-      by_cases hv : (st.sh.nodes n).hslot = .ptr a
-      · simp only [ind, hv, ↓reduceIte]
-        obtain ⟨t, e⟩ := h2 n a hv
-        have htT : t < T := by
-          apply Classical.byContradiction; intro hc
-          have := ht t (by omega); rw [this] at e; exact e
-        have c1 := cnt2_pos (OpSt.claims_of_hholds e)
-        have := @sumN_term (fun t => cnt2 ((st.th t).op.claims a (st.th t).loc) n slotCnt) T t htT
-        omega
-      · simp only [ind, hv, ↓reduceIte]; exact Nat.zero_le _
+  have key := occ_pointwise K N T st a h1 h2 hg ht
   refine Nat.le_trans (sum2_le key) ?_
   rw [sum2_add, sum2_sumN (fun g n i => cnt2 (gClaims a (st.sh.greg g)) n i),
     sum2_sumN (fun t n i => cnt2 ((st.th t).op.claims a (st.th t).loc) n i)]
